@@ -143,11 +143,11 @@ theorem clock_monotone (env : Env) (fuel : Nat) (states : Json) (name : Str) (da
 
 /-- … the same for the branches of a Parallel state and the iterations of a Map state taken together -/
 theorem clock_monotone_fanout (env : Env) (fuel : Nat) (bs : List Json) (params ctx : Json) (st : St)
-    (proc : Json) (sel : Option Json) (input : Json) (items : List Json) (i mc : Nat) (be : Rat) :
+    (proc : Json) (sel : Option Json) (input : Json) (items : List Json) (i mc : Nat) (be : Rat) (bad : Bool) :
     st.clock ≤ (runBranches env fuel bs params ctx st).2.clock ∧
-    st.clock ≤ (runItems env fuel proc sel input items i mc be ctx st).2.clock :=
+    st.clock ≤ (runItems env fuel proc sel input items i mc be ctx bad st).2.clock :=
   ⟨((growsAll env fuel).runBranches bs params ctx st).clock_le,
-   ((growsAll env fuel).runItems proc sel input items i mc be ctx st).clock_le⟩
+   ((growsAll env fuel).runItems proc sel input items i mc be ctx bad st).clock_le⟩
 
 /-- … and of the whole predicted history: every event has its instant, none is negative, and the
 instant the run ended is not before the start -/
